@@ -7,12 +7,19 @@
 // package under the build tag "verif").
 package directive
 
-// Clean and cleanKeyword are used as deterministic functions of the option and the text
-// (regexp/strings rewriting, not verified here).
-//@ func (*Option).Clean
+// Clean rewrites nothing but the directive's own line: the result is the text with the first
+// occurrence of the raw directive line replaced by that line without its #aa: marker
+// (cleanKeyword, a regexp built from the directive name, is used as a deterministic
+// function of the option and the line; its body is not verified here).
+//@ func (*Option).cleanKeyword
 //@   opt prop=C03
 //@   pure
 //@   trusted
+
+//@ func (*Option).Clean
+//@   opt prop=C03
+//@   pure
+//@   ensures result == ext("strings.Replace", input, o.Raw, Option.cleanKeyword(o, o.Raw), 1)
 
 // A directive is inline exactly when something other than blanks precedes the #aa: marker
 // on its line (then it guards that rule only); otherwise it guards the paragraph below it.
